@@ -184,8 +184,67 @@ def run_overflow(ck, F):
                         ck.bad("C09.len-offset-overflow", "%s raw len+offset" % fn["id"], "raw `len + offset` addition can overflow for adversarial lengths", b.loc(bl))
 
 
+def run_recursion(ck, F):
+    ck.rule("C09.children-validated", "validate_full validates this level (validate_data) and recurses into every child with the result kept; validate_data runs "
+            "validate, validate_nulls and validate_values", floor=2)
+    from . import disc
+    fn = F.resolve("arrow_data::data::ArrayData::validate_full")
+    if fn is None:
+        ck.missing_anchor("arrow_data::data::ArrayData::validate_full", "C09.children-validated")
+    else:
+        c = F.crate("arrow_data")
+        fns = [fn] + [cl for cl in c.closures_of.get(fn["id"], []) if "mir" in cl]
+        b = Body(fn)
+        ok_self, _, _ = flow.success_passes(b, re.compile(r"ArrayData::validate_data$"))
+        rec = False
+        for f in fns:
+            fb = Body(f)
+            for bb in flow.kept_call_blocks(fb, re.compile(r"ArrayData::validate_full$")):
+                rec = True
+        if ok_self and rec:
+            ck.ok("C09.children-validated", "validate_full", "validate_data on every Ok path; children validated recursively, result kept")
+        else:
+            ck.bad("C09.children-validated", "validate_full", "validate_full %s" % ("no longer recurses into child_data (or drops the child's result)" if ok_self else "can return Ok without validate_data"),
+                   "%s:%s" % (fn["file"], fn["line"]))
+    fn = F.resolve("arrow_data::data::ArrayData::validate_data")
+    if fn is None:
+        ck.missing_anchor("arrow_data::data::ArrayData::validate_data", "C09.children-validated")
+    else:
+        b = Body(fn)
+        missing = [n for n in ("validate", "validate_nulls", "validate_values") if not flow.success_passes(b, re.compile(r"ArrayData::%s$" % n))[0]]
+        if missing:
+            ck.bad("C09.children-validated", "validate_data", "validate_data can return Ok without %s" % missing, "%s:%s" % (fn["file"], fn["line"]))
+        else:
+            ck.ok("C09.children-validated", "validate_data", "validate, validate_nulls and validate_values on every Ok path")
+    fn = F.resolve("arrow_data::data::ArrayData::try_new")
+    if fn is not None:
+        b = Body(fn)
+        if flow.success_passes(b, re.compile(r"ArrayDataBuilder::build$"))[0]:
+            ck.ok("C09.children-validated", "try_new", "every Ok path goes through ArrayDataBuilder::build")
+        else:
+            ck.bad("C09.children-validated", "try_new", "ArrayData::try_new can return Ok without ArrayDataBuilder::build (the validating path)", "%s:%s" % (fn["file"], fn["line"]))
+    fn = F.resolve("arrow_data::data::ArrayDataBuilder::build")
+    if fn is None:
+        ck.missing_anchor("arrow_data::data::ArrayDataBuilder::build", "C09.children-validated")
+    else:
+        b = Body(fn)
+        val = flow.kept_call_blocks(b, re.compile(r"ArrayData::validate_data$"))
+        skip_targets = []
+        for sb, tt, ft, neg in flow.guard_edges(b, lambda t: (callee(t) or "").endswith("UnsafeFlag::get")):
+            skip_targets.append(ft if neg else tt)
+        exits = flow.ok_exits(b)
+        reach = b.reachable(0, removed_blocks=val + skip_targets)
+        badx = [b.loc(e) for e in exits if e in reach]
+        if val and skip_targets and not badx:
+            ck.ok("C09.children-validated", "ArrayDataBuilder::build", "Ok only after validate_data, or on the edge where the unsafe skip flag is set")
+        else:
+            ck.bad("C09.children-validated", "ArrayDataBuilder::build", "build() can return Ok without validate_data although the skip-validation flag is not set (exits %s; validate calls %d, flag tests %d)"
+                   % (badx, len(val), len(skip_targets)), "%s:%s" % (fn["file"], fn["line"]))
+
+
 def run(ck, tier):
     F = factsmod.Facts("ws")
+    run_recursion(ck, F)
     run_obligations(ck, F)
     run_stored(ck, F)
     run_overflow(ck, F)
